@@ -51,6 +51,10 @@ var HostFuncs = map[string]*Func{
 	"gderef": {Host: "gderef", HP: []string{"any", "any"}},
 }
 
+// TypedNil is a nil Go pointer of a concrete type (an element of the host slice hnilptrs): nil for
+// ==, ?? and truthiness; anything else done with it is not specified here.
+type TypedNil struct{ T string }
+
 // HostArr is the model of harr, a Go array value ([3]int64{5, 6, 7}) bound by the host: it can be
 // indexed; slicing it fails inside the interpreter (a Go array held by value is not addressable).
 type HostArr struct{ E []interface{} }
@@ -258,6 +262,9 @@ func Run(stmts []*N, cfg Cfg, budget int) (out *Outcome) {
 	top.define("hnil", &Map{})
 	top.define("hnilm", &Map{})
 	top.define("harr", &HostArr{E: []interface{}{int64(5), int64(6), int64(7)}})
+	// hnilptrs is a Go []*int64 holding three nil pointers: three elements, each nil
+	np := &TypedNil{T: "*int64"}
+	top.define("hnilptrs", &List{E: []interface{}{np, np, np}})
 	out.Top = top
 	defer func() {
 		if r := recover(); r != nil {
@@ -688,7 +695,43 @@ func (m *Model) stmt1(s *N, sc *Scope) ctl {
 			return errc("cannot call type", false)
 		}
 		if call.B {
-			m.unspec("spread in defer")
+			// defer f(a, list...): evaluated like the spread call, at the defer statement
+			if fn.HP != nil || fn.Host != "" {
+				m.unspec("spread in defer of a host function")
+			}
+			if !fn.VarArg && len(fn.Params) == 0 {
+				m.unspec("arguments passed to a parameterless function")
+			}
+			av := make([]interface{}, 0, len(args))
+			for _, a := range args {
+				v, c := m.eval(a, sc)
+				if c.s != sNone {
+					return c
+				}
+				av = append(av, v)
+			}
+			if len(av) == 0 {
+				return errc("spread without argument", false)
+			}
+			l, ok := av[len(av)-1].(*List)
+			if !ok {
+				return errc("call is variadic but last parameter is not a list", false)
+			}
+			av = append(av[:len(av)-1], l.E...)
+			if !fn.VarArg && len(av) < len(fn.Params) {
+				return errc("function wants N arguments", false)
+			}
+			if !fn.VarArg && len(av) > len(fn.Params) {
+				m.unspec("spread list longer than the parameter list")
+			}
+			if fn.VarArg && len(av) < len(fn.Params)-1 {
+				return errc("function wants N arguments", false)
+			}
+			cur := m.inv[len(m.inv)-1]
+			cur.defers = append(cur.defers, deferred{fn: fn, args: av})
+			m.feat("defer_registered")
+			m.feat("defer_with_spread_list")
+			return ok0
 		}
 		if fn.HP != nil {
 			// typed Go function: operands are evaluated and converted at the defer
@@ -1275,6 +1318,9 @@ func (m *Model) eval(e *N, sc *Scope) (interface{}, ctl) {
 		if a == nil {
 			return m.eval(e.Ns[1], sc)
 		}
+		if _, isTN := a.(*TypedNil); isTN {
+			return m.eval(e.Ns[1], sc)
+		}
 		switch t := a.(type) {
 		case *List, *Map, *Func:
 			_ = t // non-nil reference values
@@ -1502,6 +1548,12 @@ func (m *Model) binop(op string, a, b interface{}) interface{} {
 // equalOK implements equality only where C06 fixes it for the values the
 // generators use: same primitive type, or nil against anything.
 func (m *Model) equalOK(a, b interface{}) (bool, bool) {
+	if _, ok := a.(*TypedNil); ok {
+		a = nil
+	}
+	if _, ok := b.(*TypedNil); ok {
+		b = nil
+	}
 	if a == nil || b == nil {
 		return a == nil && b == nil, true
 	}
@@ -1509,6 +1561,17 @@ func (m *Model) equalOK(a, b interface{}) (bool, bool) {
 	case int64:
 		if y, ok := b.(int64); ok {
 			return x == y, true
+		}
+		if y, ok := b.(float64); ok {
+			// an integer and a float are equal when <= and >= hold between them (as float64)
+			return float64(x) == y, true
+		}
+	case float64:
+		if y, ok := b.(float64); ok {
+			return x == y, true
+		}
+		if y, ok := b.(int64); ok {
+			return x == float64(y), true
 		}
 	case string:
 		if y, ok := b.(string); ok {
@@ -1533,7 +1596,7 @@ func (m *Model) equal(a, b interface{}) bool {
 // truthy implements the truthiness classes named by C08.
 func (m *Model) truthy(v interface{}) bool {
 	switch t := v.(type) {
-	case nil:
+	case nil, *TypedNil:
 		return false
 	case bool:
 		return t
@@ -1610,6 +1673,8 @@ func Render(v interface{}) string {
 	switch t := v.(type) {
 	case nil:
 		return "nil"
+	case *TypedNil:
+		return "nil:" + t.T
 	case bool:
 		return "b:" + strconv.FormatBool(t)
 	case int64:
